@@ -17,6 +17,9 @@ def run_check(tier, seed, replay=None):
            must_cover=["EncStep", "EncFin", "DecStep", "DecFin"], timeout=3000)
     c.add_model(r, "all operation sequences of length <= %d over a 27-operation alphabet" % n)
 
+    if tier == "thorough":
+        tlaps(c, "DiffProof", wd)
+
     # G: spec -> impl, every sequence of the model with the bins the spec computes
     gen = os.path.join(wd, "gen.ndjson")
     g = generate("MC_Codec", wd, gen, constants={"N": n if tier == "thorough" else 3, "Emit": "TRUE"},
